@@ -3,7 +3,7 @@
    together with the report-loop goroutines, never deadlock on the package's locks. *)
 From Coq Require Import List Bool Arith.
 Import ListNotations.
-From Tally Require Import Model.Locks Proof.LocksP Gen.LockSkel.
+From Tally Require Import Model.Locks Proof.LocksSysP Proof.LocksP Gen.LockSkel.
 
 Definition fuel : nat := 400.
 
@@ -20,16 +20,16 @@ Proof. vm_compute. reflexivity. Qed.
 (* a goroutine of the application: any sequence of calls of exported functions of the package;
    a background goroutine: one started by the package itself (the report loop) *)
 Definition app_goroutine (cls : nat -> nat) (g : list gop) : Prop :=
-  relok [] g /\ calls procs (fun f => In f api) false (map (abs_op cls) g).
+  relok_c cls [] g /\ calls procs (fun f => In f api) false (map (abs_op cls) g).
 Definition pkg_goroutine (cls : nat -> nat) (g : list gop) : Prop :=
-  relok [] g /\ calls procs (fun f => In f bg) false (map (abs_op cls) g).
+  relok_c cls [] g /\ calls procs (fun f => In f bg) false (map (abs_op cls) g).
 
 Theorem scope_locks_no_deadlock (cls : nat -> nat) (gs : list (list gop)) (sched : list nat) :
   (forall g, In g gs -> app_goroutine cls g \/ pkg_goroutine cls g) ->
   (* wg.Wait() in Close waits for report-loop goroutines only *)
   (forall g js j g', In g gs -> In (GWait js) g -> In j js -> nth_error gs j = Some g' -> pkg_goroutine cls g') ->
   let s := run (init gs) sched in
-  forall k t, nth_error s k = Some t -> todo t <> [] -> enabled s k = false ->
+  forall k t, nth_error (ths s) k = Some t -> todo t <> [] -> enabled s k = false ->
   exists k', enabled s k' = true.
 Proof.
   intros Hg Hw.
@@ -66,6 +66,43 @@ Qed.
 (* non-vacuity of the system model: a reader holds lock 1, a writer has announced itself and is
    blocked, a second reader is blocked behind the writer (writer preference); the first reader can move *)
 Example writer_preference_blocks :
-  let s := run (init [[GAcq W 1; GRel W 1]; [GAcq R 1; GRel R 1]; [GAcq R 1; GRel R 1]]) [1; 0] in
+  let s := run (init [[GAcq W 1; GRel W 1]; [GAcq R 1; GRel R 1]; [GAcq R 1; GRel R 1]]) [1; 0; 2] in
   enabled s 0 = false /\ enabled s 2 = false /\ enabled s 1 = true.
 Proof. vm_compute. auto. Qed.
+
+(* the same goroutines also exclude each other: a goroutine that holds a lock for writing is the
+   only holder of that lock, in every reachable state *)
+Theorem scope_locks_mutual_exclusion (cls : nat -> nat) (gs : list (list gop)) (sched : list nat) :
+  (forall g, In g gs -> app_goroutine cls g \/ pkg_goroutine cls g) ->
+  (forall g js j g', In g gs -> In (GWait js) g -> In j js -> nth_error gs j = Some g' -> pkg_goroutine cls g') ->
+  let s := run (init gs) sched in
+  forall l i j u v, nth_error (ths s) i = Some u -> nth_error (ths s) j = Some v ->
+  holds W l u = true -> holds_any l v = true -> i = j.
+Proof.
+  intros Hg Hw.
+  apply (checked_mutual_exclusion procs fuel (fun f => In f api) (fun f => In f bg) cls).
+  - intros f Hf. pose proof api_checked as H. rewrite forallb_forall in H. exact (H f Hf).
+  - intros f Hf. pose proof bg_checked as H. rewrite forallb_forall in H. specialize (H f Hf).
+    apply andb_true_iff in H as [H1 H2]. split; [exact H1|]. apply negb_true_iff in H2. exact H2.
+  - intros g Hin. destruct (Hg g Hin) as [[Hr Hc] | [Hr Hc]]; (split; [exact Hr|]); [left|right]; exact Hc.
+  - intros g js j g' Hin Hgw Hj Hn. destruct (Hw g js j g' Hin Hgw Hj Hn) as [_ Hc]. exact Hc.
+Qed.
+
+(* data guarded by a lock (the maps and slices of a scope, a registry shard, the bucket cache, a
+   timer's values: Gen/LockSkel.v lists them): a goroutine about to write such data is the only one
+   about to access it - conflicting accesses never overlap *)
+Theorem scope_data_exclusive_access (cls : nat -> nat) (gs : list (list gop)) (sched : list nat) :
+  (forall g, In g gs -> app_goroutine cls g \/ pkg_goroutine cls g) ->
+  (forall g js j g', In g gs -> In (GWait js) g -> In j js -> nth_error gs j = Some g' -> pkg_goroutine cls g') ->
+  let s := run (init gs) sched in
+  forall l i j u v w ru rv, nth_error (ths s) i = Some u -> nth_error (ths s) j = Some v ->
+  todo u = GUse true l :: ru -> todo v = GUse w l :: rv -> i = j.
+Proof.
+  intros Hg Hw.
+  apply (checked_exclusive_access procs fuel (fun f => In f api) (fun f => In f bg) cls).
+  - intros f Hf. pose proof api_checked as H. rewrite forallb_forall in H. exact (H f Hf).
+  - intros f Hf. pose proof bg_checked as H. rewrite forallb_forall in H. specialize (H f Hf).
+    apply andb_true_iff in H as [H1 H2]. split; [exact H1|]. apply negb_true_iff in H2. exact H2.
+  - intros g Hin. destruct (Hg g Hin) as [[Hr Hc] | [Hr Hc]]; (split; [exact Hr|]); [left|right]; exact Hc.
+  - intros g js j g' Hin Hgw Hj Hn. destruct (Hw g js j g' Hin Hgw Hj Hn) as [_ Hc]. exact Hc.
+Qed.
